@@ -207,6 +207,11 @@ func (reader *H265Reader) NextNAL() (*NAL, error) {
 	reader.nalBuffer = nil
 	nal.parseHeader()
 
+	// The last NAL of the stream is not followed by a start code, so it was not filtered above.
+	if reader.shouldSkipNAL(NalUnitType((nal.Data[0] & 0x7E) >> 1)) {
+		return nil, io.EOF
+	}
+
 	return nal, nil
 }
 
